@@ -275,6 +275,121 @@ fn judge(ctx: &mut Ctx, name: &'static str, seam: &'static str, size: usize, img
     }
 }
 
+// ---- user-defined *header* kinds (12 bytes, alignment 4; 4 bytes) with tag types on top of them
+macro_rules! user_header {
+    ($name:ident, { $($field:ident : $t:ty),* }) => {
+        #[derive(Clone, PartialEq, Eq, Debug)]
+        #[repr(C)]
+        struct $name { $($field: $t),* }
+        impl multiboot2_common::Header for $name {
+            fn payload_len(&self) -> usize {
+                (self.size as usize).saturating_sub(std::mem::size_of::<Self>())
+            }
+            fn total_size(&self) -> usize {
+                self.size as usize
+            }
+            fn set_size(&mut self, total_size: usize) {
+                self.size = total_size as u32;
+            }
+        }
+    };
+}
+user_header!(UH12, { typ: u32, size: u32, flags: u32 });
+user_header!(UH4, { size: u32 });
+
+trait UFamily: MaybeDynSized {
+    const NAME: &'static str;
+    const HDR: usize;
+    const SIZE_OFF: usize;
+    fn sov(&self) -> usize;
+    fn last_field(&self) -> u32;
+}
+macro_rules! usized_ty {
+    ($name:ident, $h:ty, $hdr:expr, $size_off:expr, $n:expr) => {
+        usized_ty!($name, $h, $hdr, $size_off, $n, align(8));
+    };
+    ($name:ident, $h:ty, $hdr:expr, $size_off:expr, $n:expr, $($al:tt)*) => {
+        #[repr(C, $($al)*)]
+        struct $name {
+            header: $h,
+            words: [u32; $n],
+        }
+        impl MaybeDynSized for $name {
+            type Header = $h;
+            const BASE_SIZE: usize = $hdr + 4 * $n;
+            fn dst_len(_: &$h) {}
+        }
+        impl UFamily for $name {
+            const NAME: &'static str = stringify!($name);
+            const HDR: usize = $hdr;
+            const SIZE_OFF: usize = $size_off;
+            fn sov(&self) -> usize {
+                std::mem::size_of_val(self)
+            }
+            fn last_field(&self) -> u32 {
+                self.words.last().copied().unwrap_or(self.header.size)
+            }
+        }
+    };
+}
+usized_ty!(U12W0, UH12, 12, 4, 0);
+usized_ty!(U12W1, UH12, 12, 4, 1);
+usized_ty!(U12W2, UH12, 12, 4, 2);
+usized_ty!(U12W3, UH12, 12, 4, 3);
+usized_ty!(U12W4, UH12, 12, 4, 4);
+usized_ty!(U12W5, UH12, 12, 4, 5);
+usized_ty!(U4W0, UH4, 4, 0, 0);
+usized_ty!(U4W1, UH4, 4, 0, 1);
+usized_ty!(U4W2, UH4, 4, 0, 2);
+usized_ty!(U4W3, UH4, 4, 0, 3);
+usized_ty!(U4W5, UH4, 4, 0, 5);
+// the same with the natural alignment of 4 (sizes 12 + 4n / 4 + 4n, half of them not multiples of 8)
+usized_ty!(N12W0, UH12, 12, 4, 0, align(4));
+usized_ty!(N12W1, UH12, 12, 4, 1, align(4));
+usized_ty!(N12W2, UH12, 12, 4, 2, align(4));
+usized_ty!(N12W3, UH12, 12, 4, 3, align(4));
+usized_ty!(N12W4, UH12, 12, 4, 4, align(4));
+usized_ty!(N4W0, UH4, 4, 0, 0, align(4));
+usized_ty!(N4W1, UH4, 4, 0, 1, align(4));
+usized_ty!(N4W2, UH4, 4, 0, 2, align(4));
+usized_ty!(N4W4, UH4, 4, 0, 4, align(4));
+
+fn ufamily<T: UFamily>(ctx: &mut Ctx, arena: &Arena)
+where
+    T::Header: multiboot2_common::Header,
+{
+    for size in T::HDR..=48 {
+        let mut img = vec![0u8; round8(size).max(8)];
+        for i in 0..img.len() {
+            img[i] = marker(i, 67);
+        }
+        wr32(&mut img, T::SIZE_OFF, size as u32);
+        let describe = || J::obj().set("seam", "cast (user-defined header)").set("type", T::NAME).set("tag_size", size).set("tag", J::hex(&img));
+        ctx.leaf(describe, |ctx| {
+            ctx.state_direct();
+            ctx.nontrivial();
+            ctx.under_fills(&format!("c15/o5/{}", T::NAME), |ctx, fill| {
+                arena.fill(fill);
+                let p = arena.place_right(&img);
+                let slice: &[u8] = unsafe { std::slice::from_raw_parts(p, img.len()) };
+                let Out::Val(Ok(g)) = ctx.call("ref_from_slice", || DynSizedStructure::<T::Header>::ref_from_slice(slice)) else {
+                    ctx.class("ucast:refused-by-ref_from_slice");
+                    return;
+                };
+                let r = ctx.call("cast", || {
+                    let t = g.cast::<T>();
+                    (rel(t, p), t.sov(), t.last_field())
+                });
+                match r {
+                    Out::Panic => ctx.class("ucast:panic"),
+                    Out::Val((0, sov, _)) if sov == round8(size) => ctx.class("ucast:view"),
+                    Out::Val((off, sov, _)) => ctx.violation(&format!("c15/view-size/user-header/{}", T::NAME), || format!("viewing a structure of size {} (user-defined header of {} bytes) as {}: reference at offset {} with size_of_val {}; must be the structure's address and {} (or a panic)", size, T::HDR, T::NAME, off, sov, round8(size))),
+                }
+            });
+        });
+    }
+}
+
 fn family<T: Family + ?Sized>(ctx: &mut Ctx, arena: &Arena, max: usize) {
     let id = u32::from(T::ID);
     for size in 8..=max {
@@ -409,6 +524,9 @@ fn run(ctx: &mut Ctx) {
         macro_rules! faml { ($($t:ty),*) => { $( family_large::<$t>(ctx, &big); )* } }
         faml!(Sized0, Sized1, Sized2, Sized3, Sized4, Sized5, Sized6, D8E1, D16E8, D12E4, A16Sized, L4S12);
     }
+    ctx.bound("user_headers", "user-defined header kinds of 12 bytes (type, size, flags; alignment 4) and 4 bytes (size only) with sized tag types of 0..=5 extra words on top (8-aligned, and with their natural alignment of 4): every structure size from the header size to 48; via ref_from_slice + cast, flush against a guard page, fills A/B");
+    macro_rules! ufam { ($($t:ty),*) => { $( ufamily::<$t>(ctx, &arena); )* } }
+    ufam!(U12W0, U12W1, U12W2, U12W3, U12W4, U12W5, U4W0, U4W1, U4W2, U4W3, U4W5, N12W0, N12W1, N12W2, N12W3, N12W4, N4W0, N4W1, N4W2, N4W4);
     // built-in kinds x all sizes
     ctx.bound("builtin", format!("all 22 built-in kinds x every tag size 8..={} (VBE: 8..=800): cast gives a view of exactly the tag's padded size or panics", max));
     for kind in 0..=21u32 {
@@ -449,11 +567,16 @@ fn run(ctx: &mut Ctx) {
         }
     }
     // the named getters of the boot information are casts too: each hands out a view of a tag of its own type only
-    ctx.bound("named_getters", format!("regions [one tag of built-in kind K, size 8..={} (VBE: 8..=800)][end tag] x all 22 named getters: the getter of kind K panics or returns the tag's address with a view of exactly its padded size; every other getter returns nothing or panics (the end-tag getter returns the end tag, 8 bytes)", max));
+    ctx.bound("named_getters", format!("regions [one tag of built-in kind K, size 8..={} (VBE: 8..=800); SMBIOS additionally with tables that are 32- and 64-bit entry-point structures][end tag] x all 22 named getters: the getter of kind K panics or returns the tag's address with a view of exactly its padded size; every other getter returns nothing or panics (the end-tag getter returns the end tag, 8 bytes)", max));
     let rarena = Arena::new(3);
-    for kind in 1..=21u32 {
+    // (kind, base image): the marker samples, and SMBIOS tags whose tables are real entry-point structures (contents
+    // that carry their own length)
+    let mut getter_bases: Vec<(u32, Vec<u8>)> = (1..=21u32).map(|k| (k, bi::sample(k, 1, 1))).collect();
+    for img in bi::smbios_entry_points() {
+        getter_bases.push((bi::SMBIOS, img));
+    }
+    for (kind, base) in getter_bases {
         let top = if kind == bi::VBE { 800 } else { max };
-        let base = bi::sample(kind, 1, 1);
         for size in 8..=top {
             let mut img = base.clone();
             img.resize(round8(size).max(8), 0);
